@@ -644,6 +644,7 @@ Classify ==
                                THEN V("C04", "panic", <<Ln.phase, Ln.case, Ln.msg>>)
                              ELSE IF Ln.o1 = "pending" /\ Ln.unread # 0 THEN V("C04", "stalled-with-unread-input", <<Ln.phase, Ln.case, Ln.unread>>)
                              ELSE V("C04", "no-return-after-transport-end", <<Ln.phase, Ln.case>>)
+    [] Ln.e = "abort"     -> V(<<"C03", "C04">>, "process-aborted", <<Ln.why, Ln.shard, Ln.completed>>)
     [] Ln.e = "disccmp"   -> V("C16", "outcome-depends-on-polling-discipline", <<Ln.variant, Ln.detail>>)
     [] Ln.e = "first"     -> IF Ln.res.r = "panic" THEN V("C04", "panic-in-connect", Ln.inj)
                              ELSE V("C13", "first-response", <<Ln.phase, Ln.inj, Ln.rc, Ln.res.kind, Ln.res.rc>>)
